@@ -908,7 +908,7 @@ def campaign(build, tier, seed, report, budget=1):
     cov["effect_summaries"] = {k: v for k, v in rep.get("effect_summaries", {}).items() if k != "rejected"}
     cov["rejected_summaries"] = rep.get("effect_summaries", {}).get("rejected", {})
     # a summary the checker rejects: say which write, so that the obligation failure is readable
-    viol = v1 + v2
+    viol = sorted(v1 + v2, key=lambda v: 0 if v["kind"] == "value" else 1)      # failing inputs first
     for fn, ws in cov["rejected_summaries"].items():
         viol.append({"property": "C11", "op": "effect-summary", "kind": "representation", "clause": None,
                      "what": f"{fn}: a write may reach a buffer or attribute of an argument: {ws[:3]}",
